@@ -43,6 +43,12 @@ def merge_counters(dst: dict, src: dict) -> None:
 def execute_run(engine, verif_seed: int, run_index: int, tier: str, want_plan: bool = False):
     """Plan and execute one run in *this* process. Returns the engine's result dict."""
     seed_run = seed_for_run(verif_seed, engine.name, run_index)
+    if engine.fork_per_run and not os.environ.get("MYSTSIM_DEBUG"):
+        # this is a forked run process: whatever the code under test prints (docutils' math2html, YAML
+        # dumps, Sphinx status) must not reach the check's stdout, where only verdict lines belong
+        devnull = os.open(os.devnull, os.O_WRONLY)
+        os.dup2(devnull, 1)
+        os.dup2(devnull, 2)
     plan = engine.plan(seed_run, tier)
     res = engine.execute(plan)
     res["run_index"] = run_index
@@ -144,6 +150,7 @@ def run_batch(
     t0 = _monotonic()
     deadline = t0 + budget_s
     scratch = scratch_base()
+    os.environ["MYSTSIM_SCRATCH"] = scratch  # run processes create (and remove) their project dirs here
     pids = []
     try:
         sys.stdout.flush()
@@ -220,4 +227,5 @@ def run_batch(
         total["wall_s"] = _monotonic() - t0
         return total
     finally:
+        os.environ.pop("MYSTSIM_SCRATCH", None)
         shutil.rmtree(scratch, ignore_errors=True)
